@@ -1,0 +1,9 @@
+package exif2
+
+// verifErr maps an error to the class reported by the verification hooks: 0 nil, 1 any error.
+func verifErr(err error) int64 {
+	if err != nil {
+		return 1
+	}
+	return 0
+}
